@@ -187,14 +187,19 @@ func (w *c17World) finish(t *c17Txn) {
 	if t.done {
 		return
 	}
-	switch sym.Int("finish", 0, 4) {
+	// quick tier: commit / rollback / left locked; thorough adds the resolve-lock forms
+	nfin := 2
+	if sym.Tier() > 0 {
+		nfin = 4
+	}
+	switch sym.Int("finish", 0, nfin) {
 	case 0:
 		sym.Assert(w.commit(t, false) == nil, "commit-of-prewritten-txn-ok")
 	case 1:
 		sym.Assert(w.rollback(t, false) == nil, "rollback-ok")
-	case 2:
-		sym.Assert(w.commit(t, true) == nil, "resolve-commit-ok")
 	case 3:
+		sym.Assert(w.commit(t, true) == nil, "resolve-commit-ok")
+	case 4:
 		sym.Assert(w.rollback(t, true) == nil, "resolve-rollback-ok")
 	default:
 		t.done = true // left locked
@@ -261,6 +266,19 @@ func VerifC17Reads() {
 	w := c17NewWorld()
 	defer NoKV.VerifCloseModelDB(w.db)
 	txns := w.history(c17N())
+	// a late, duplicated request for a finished transaction (stale resolver, client
+	// retry): it must change nothing
+	if late := sym.Int("late_request", 0, 2); late > 0 {
+		t := txns[sym.Int("late_txn", 0, len(txns)-1)]
+		if t.prewrote && (w.m.committed[t.id] || w.m.rolled[t.id]) {
+			if late == 1 {
+				w.apply(&pb.Request{CmdType: pb.CmdType_CMD_BATCH_ROLLBACK, Cmd: &pb.Request_BatchRollback{BatchRollback: &pb.BatchRollbackRequest{StartVersion: t.start, Keys: t.keys()}}})
+			} else if t.commit != 0 {
+				w.apply(&pb.Request{CmdType: pb.CmdType_CMD_COMMIT, Cmd: &pb.Request_Commit{Commit: &pb.CommitRequest{StartVersion: t.start, CommitVersion: t.commit, Keys: t.keys()}}})
+			}
+			sym.Reached("late-request")
+		}
+	}
 	readTs := uint64(sym.SymInt("read_ts", 0, 40))
 
 	// the read finds, above the visible committed value, the record of a rolled
